@@ -46,7 +46,7 @@ static const u32 OUTDOM = 0xDEADBEEFu;
 
 // ---------------------------------------------------------------- unary binary32 ops (sweepable)
 enum { NANC = 1 };   // compare NaN as a class
-struct UOp { const char* name; u32 (*f)(u32); };
+struct UOp { const char* name; u32 (*f)(u32); bool exact; };   // exact: results hashed bit for bit (NaN payloads included)
 #define UF(n, expr) static u32 u_##n(u32 u) { float x = F(u); (void)x; return expr; }
 UF(floor, B(glm::floor(x)))
 UF(ceil, B(glm::ceil(x)))
@@ -87,14 +87,15 @@ static u32 u_vfbtu(u32 u) { glm::vec4 v(1.5f, 0.f, F(u), 0.25f); return (u32)glm
 static u32 u_vibtf(u32 u) { glm::ivec4 v(7, 0, (int)u, -1); return B(glm::intBitsToFloat(v).z); }
 static u32 u_vubtf(u32 u) { glm::uvec4 v(7u, 0u, u, 1u); return B(glm::uintBitsToFloat(v).z); }
 
-#define U(n) { #n, u_##n }
+#define U(n) { #n, u_##n, false }
+#define X(n) { #n, u_##n, true }
 static const UOp UOPS[] = {
-	U(floor), U(ceil), U(trunc), U(round), U(roundEven), U(fract), U(abs), U(sign), U(isnan), U(isinf),
-	U(iround), U(uround), U(wrapClamp), U(repeat), U(mirrorClamp), U(mirrorRepeat),
-	U(fbti), U(fbtu), U(ibtf), U(ubtf), U(modf_i), U(modf_f),
-	U(vfloor), U(vceil), U(vtrunc), U(vround), U(vroundEven), U(vfract), U(vabs), U(vsign), U(visnan), U(visinf),
-	U(viround), U(vuround), U(vwrapClamp), U(vrepeat), U(vmirrorClamp), U(vmirrorRepeat),
-	U(vfbti), U(vfbtu), U(vibtf), U(vubtf),
+	U(floor), U(ceil), U(trunc), U(round), U(roundEven), U(fract), X(abs), X(sign), X(isnan), X(isinf),
+	X(iround), X(uround), X(wrapClamp), U(repeat), U(mirrorClamp), U(mirrorRepeat),
+	X(fbti), X(fbtu), X(ibtf), X(ubtf), U(modf_i), U(modf_f),
+	U(vfloor), U(vceil), U(vtrunc), U(vround), U(vroundEven), U(vfract), X(vabs), X(vsign), X(visnan), X(visinf),
+	X(viround), X(vuround), X(vwrapClamp), U(vrepeat), U(vmirrorClamp), U(vmirrorRepeat),
+	X(vfbti), X(vfbtu), X(vibtf), X(vubtf),
 };
 static const int NU = sizeof(UOPS) / sizeof(UOPS[0]);
 static const UOp* findU(const char* n) { for (int i = 0; i < NU; i++) if (!strcmp(UOPS[i].name, n)) return &UOPS[i]; return 0; }
@@ -315,8 +316,8 @@ int main(int argc, char** argv)
 			u64 lo = b << 20, hi = lo + (1ull << 20); if (lo >= total) break; if (hi > total) hi = total;
 			u64 h = 0xcbf29ce484222325ull;
 			for (u64 i = lo; i < hi; i++) {
-				u32 x = sweepInput(thorough, i), r = canon(u->f(x));
-				if (mode == "block") printf("%s f %x -> %x\n", u->name, x, r);
+				u32 x = sweepInput(thorough, i), r = u->exact ? u->f(x) : canon(u->f(x));
+				if (mode == "block") printf("S:%s f %x -> %x\n", u->name, x, r);
 				h = (h ^ r) * 0x100000001b3ull;
 			}
 			if (mode == "sweep") printf("H %s %llu %016llx %llu\n", u->name, (unsigned long long)b, (unsigned long long)h, (unsigned long long)(hi - lo));
